@@ -73,6 +73,17 @@ Proof. exact fault_atomic_partial_lemma. Qed.
 Theorem fault_atomic : fault_atomic_statement fdopen_cleans.
 Proof. exact fault_atomic_fixed_lemma. Qed.
 
+(* SEVERAL failing calls in one flush (at most one -- the first -- in each
+   fragment; after the first failure every later fragment ends with unlink, and
+   a further failure there takes that fragment's failure continuation): still
+   at every instant every format file is complete old or complete new, the
+   replaced ones form a prefix, nothing else is touched *)
+Theorem crash_atomic_multi : forall cl tfd frs ks j st, scen_ok frs st ->
+  let st' := crash (mfm_trace cl tfd frs false ks) j st in
+  (forall f, In f frs -> lookup st' (fpath f) = lookup st (fpath f) \/ lookup st' (fpath f) = Some (new_text f)) /\
+  shape frs st st' /\ untouched frs st st'.
+Proof. exact crash_atomic_multi_lemma. Qed.
+
 (* the EEXIST retry loop of _GD_MakeTempFile: failed exclusive creations put
    in front of any trace leave every state of that trace unchanged, so all the
    theorems above hold for flushes that had to try several temporary names *)
